@@ -243,6 +243,16 @@ class Check:
         return out
 
     def oblige(self, ex, unit, name, post, inputs, replay, describe=None, pre=None, witness=True):
+        replay0 = replay
+
+        def replay(vals):
+            try:
+                return replay0(vals)
+            except Exception as e:      # a replay that cannot be carried out is never a confirmation
+                return False, "replay failed: %s: %s" % (type(e).__name__, e)
+        return self._oblige(ex, unit, name, post, inputs, replay, describe, pre, witness)
+
+    def _oblige(self, ex, unit, name, post, inputs, replay, describe=None, pre=None, witness=True):
         """Discharge `path-condition ∧ pre ⇒ post` on the path currently on ex.ctx's stack.
         inputs: {name: z3 const} printed in counterexamples and available to region predicates.
         replay(values: {name: python value}) -> (reproduced: bool, detail: str)"""
